@@ -128,7 +128,7 @@ func c06Roots(r *ev.Run) []searchReq {
 	out = append(out, c06Histories...)
 	pr := universe.PerftRoots()
 	br := universe.BenchRoots()
-	n := ev.Pick(r, 6, 40)
+	n := ev.Pick(r, 18, 40)
 	for i := 0; i < n; i++ {
 		out = append(out, searchReq{FEN: pr[(i*5+int(r.Seed))%len(pr)].FEN})
 		out = append(out, searchReq{FEN: br[(i*3+int(r.Seed))%len(br)].FEN})
@@ -240,7 +240,7 @@ func runC06(r *ev.Run) {
 		rn *c06Runner
 	}
 	var cls atomic.Int64
-	stride := int64(ev.Pick(r, 7, 1))
+	stride := int64(ev.Pick(r, 3, 1))
 	forClasses(r, classes, universe.Opts{NoEP: true}, func() *worker {
 		return &worker{rn: &c06Runner{r: r, s: search.New(32000), tt: 32000}}
 	}, func(w *worker, p *refchess.Pos) {
